@@ -5,6 +5,7 @@ import (
 	"context"
 	"errors"
 	"fmt"
+	"net/http"
 	"net/url"
 
 	"github.com/oauth2-proxy/oauth2-proxy/v7/pkg/apis/middleware"
@@ -84,10 +85,15 @@ func (p *ProviderData) Redeem(ctx context.Context, redirectURL, code, codeVerifi
 		AccessToken string `json:"access_token"`
 	}
 	err = result.UnmarshalInto(&jsonResponse)
-	if err == nil {
+	if err == nil && jsonResponse.AccessToken != "" {
 		return &sessions.SessionState{
 			AccessToken: jsonResponse.AccessToken,
 		}, nil
+	}
+
+	// only a successful response can carry a token
+	if result.StatusCode() != http.StatusOK {
+		return nil, fmt.Errorf("unexpected status \"%d\" from the token endpoint: %s", result.StatusCode(), result.Body())
 	}
 
 	values, err := url.ParseQuery(string(result.Body()))
